@@ -137,7 +137,7 @@ pub fn run(args: &Args, rep: &mut Report) {
         return;
     }
     // (1) all 4^k windows for k <= kmax_all
-    let kmax_all = if miri { 3 } else if t { 9 } else { 8 };
+    let kmax_all = if miri { 2 } else if t { 9 } else { 8 };
     let mut idx = 0u64;
     let mut exh = 0u64;
     for k in 1..=kmax_all {
@@ -154,9 +154,9 @@ pub fn run(args: &Args, rep: &mut Report) {
         });
     }
     // (2) all sequences of length <= k+3 over {A,C,G,T,N} for k <= kmax_seq
-    let kmax_seq = if miri { 2 } else if t { 5 } else { 4 };
+    let kmax_seq = if miri { 1 } else if t { 5 } else { 4 };
     for k in 1..=kmax_seq {
-        for len in 0..=k + 3 {
+        for len in 0..=(if miri { k + 2 } else { k + 3 }) {
             all_strings(5, len, &mut |s| {
                 idx += 1;
                 if args.mine(idx) {
